@@ -126,6 +126,7 @@ class SyncRun:
             self.tags[s] = 0
         if controlled:
             w.ck.controlled.update(self.sessions)
+        self._known_uids = self.store_uids()
 
     # -- glass box ---------------------------------------------------------------
 
@@ -140,6 +141,11 @@ class SyncRun:
         st = self.w.conns[s].state
         sel = st._selected if st is not None else None
         return None if sel is None else sel.lookup
+
+    def selected_ro(self, s: str) -> bool:
+        st = self.w.conns[s].state
+        sel = st._selected if st is not None else None
+        return bool(sel is not None and sel.readonly)
 
     def truth(self, mbx: str):
         """sorted uids and their permanent flags in the store"""
@@ -160,7 +166,25 @@ class SyncRun:
     def note(self, **kw) -> None:
         self.events.append(kw)
 
-    def collect(self) -> None:
+    def store_uids(self) -> dict:
+        if self.backend == 'dict':
+            mset = self.w.mailbox_set()
+            if mset is None:
+                return {}
+            out = {'INBOX': set(mset._inbox._messages)}
+            for name, data in mset._set.items():
+                out[name] = set(data._messages)
+            return out
+        from . import maildirsrv
+        return maildirsrv.store_uids(self.w)
+
+    def collect(self, by: str = '') -> None:
+        now = self.store_uids()
+        for m, uids in now.items():
+            new = uids - self._known_uids.get(m, set())
+            if new:
+                self.events.append({'e': 'arrive', 'dest': m, 'uids': sorted(new), 'by': by})
+        self._known_uids = now
         for s in self.sessions:
             c = self.w.conns[s]
             data = bytes(c.writer.out)
@@ -227,6 +251,7 @@ class SyncRun:
         ev.append({'e': 'tagged', 's': s, 'cond': cond, 'code': code,
                    'codeargs': r.code[1].decode() if r.code else '',
                    'selected': view is not None, 'view': view or [],
+                   'ro': self.selected_ro(s),
                    'cmd': list(map(_j, cmd)), 'mbx': self.selected_name(s) or ''})
 
     # -- driver actions ------------------------------------------------------------
@@ -302,20 +327,21 @@ class SyncRun:
         else:
             self.w.run(s)
         self.note(e='step', s=s, frm=before or 'run', to=c.parked or 'rest')
-        self.collect()
+        self.collect(s)
         return before
 
     def finish(self, s: str, limit: int = 500) -> None:
         """run s until its command completes (or it idles / blocks)"""
         n = 0
         self.w.run(s)
+        self.collect(s)
         while self.w.conns[s].parked is not None:
             self.w.step(s)
+            self.collect(s)
             n += 1
             if n > limit:
                 self.errors.append(f'{s}: more than {limit} checkpoints in one command')
                 break
-        self.collect()
 
     def quiesce(self, budget: int = 200000) -> None:
         """FIFO until nothing is runnable (lock checkpoints are released as they
